@@ -179,7 +179,16 @@ def search(ctx):
             if why:
                 found.append({"clause": why, "input": {"op": repr(op), "failure": kind}, "observed": detail, "size": 1, "case": None,
                               "method_case": repr((op, rep, kind))})
-    ctx.search_summary = {"runs": n, "method_failure_runs": m}
+    nc = 0
+    for cfg in CONNECT_CFGS:
+        for pos in range(0, 12):
+            for kind in ("OSError", "SocketTimeout"):
+                nc += 1
+                why, detail = connect_failure(cfg, pos, kind)
+                if why:
+                    found.append({"clause": why, "input": {"cfg": repr(cfg), "failing_socket_call": pos, "error": kind}, "observed": detail, "size": 1, "case": None,
+                                  "connect_case": repr((cfg, pos, kind))})
+    ctx.search_summary = {"runs": n, "method_failure_runs": m, "connect_failure_runs": nc}
     found.sort(key=lambda v: v["size"])
     return found[:1]
 
@@ -234,8 +243,34 @@ def method_failure(op, rep, kind):
     return None, None
 
 
+CONNECT_CFGS = [dict(tcp=False, keepalive=True, default_noreply=False), dict(tcp=True, naddr=2, keepalive=True, nodelay=True, default_noreply=False),
+                dict(tcp=True, naddr=1, tls=True, default_noreply=False)]
+
+
+def connect_failure(cfg, pos, kind):
+    """a failure at socket call number `pos` of a cold PooledClient's first call (socket(), the options, the timeouts, connect, ...):
+    whatever was opened for it is closed by the time the pool has been closed, nothing stays checked out, the next call works"""
+    ops = [(3, b"z", None), (0, 0, b"z", b"0", 0, False, None), (19,)]
+    r = cs.run_pooled(cfg, (2, 0), ops, [0] * pos + [(TAGS[kind],)], [], (), [], {0: b"END\r\n", 1: b"STORED\r\n"})
+    results, world = r[0], r[5]
+    if results[0][0][0] != "e":
+        return None, None           # the first call has fewer socket calls than `pos`: the fault fell elsewhere
+    if any(u != 0 for _, u, _ in results):
+        return "connections still checked out after a failed connection attempt: used = %r" % ([u for _, u, _ in results],), repr(results)
+    if results[1][0] != ("o", ("bool", True)):
+        return "the call after the failed connection attempt returned %r" % (results[1][0],), repr(results)
+    open_ = [sk.sid for sk in world.socks if not sk.closed and not any(getattr(o, "raw", None) is sk for o in world.socks)]
+    if open_:
+        return "socket(s) %r opened during the failed connection attempt were never closed (the pool itself has been closed)" % (open_,), repr(results)
+    return None, None
+
+
 def replay(ctx, obj):
     v = obj.get("violation")
+    if v and v.get("connect_case"):
+        why, detail = connect_failure(*eval(v["connect_case"]))
+        print(why or "everything opened was closed", detail or "")
+        return bool(why)
     if not v or not v.get("case"):
         return None
     if v.get("method_case"):
